@@ -469,8 +469,10 @@ func (ef *Filter) filterField(ctx context.Context, v reflect.Value, filterOverri
 				// okay, we've dealt with the "Taggable" things, let's check for other
 				// fields that need to be filtered, but be sure to ignore taggable
 				// on the next recursion or will be in an infinite loop
-				opt = append(opt, withIgnoreTaggable())
-				if err := ef.filterField(ctx, field, filterOverrides, tm, opt...); err != nil {
+				// (use a copy of the options: the remaining fields of this struct
+				// must not inherit the "ignore taggable" marker)
+				taggableOpts := append(append(make([]Option, 0, len(opt)+1), opt...), withIgnoreTaggable())
+				if err := ef.filterField(ctx, field, filterOverrides, tm, taggableOpts...); err != nil {
 					return fmt.Errorf("%s: %w", op, err)
 				}
 			}
